@@ -384,6 +384,36 @@ let run_prog (proto : string) (su : string) (toks : string list) : string =
     ^ (if sd_run pr [] then " #wf" else " #illformed")
   | _ -> "NA"
 
+(* C01: the documented Python value (PyVal.pyval_of) and what the CPython machine (PyVM.pyload)
+   loads from the program of Encode's output, in the harness value syntax *)
+let rec dump_pv (b : Buffer.t) (v : pv) : unit =
+  let tok s = Buffer.add_string b s; Buffer.add_char b ' ' in
+  match v with
+  | PNone -> tok "N"
+  | PBool true -> tok "T" | PBool false -> tok "F"
+  | PInt z -> tok ("i:" ^ string_of_bytes (dec_of_Z z))
+  | PFloat f -> tok ("f:" ^ hex_of_blist (be_encode (nat_of_int 8) f))
+  | PUni s -> tok ("s:" ^ hex_of_blist s)
+  | PStr s -> tok ("z:" ^ hex_of_blist s)
+  | PBytes s -> tok ("b:" ^ hex_of_blist s)
+  | PBArr s -> tok ("a:" ^ hex_of_blist s)
+  | PTuple l -> tok "t("; List.iter (dump_pv b) l; tok ")"
+  | PList l -> tok "l["; List.iter (dump_pv b) l; tok "]"
+  | PDict es -> tok "d{"; List.iter (fun (k, x) -> dump_pv b k; dump_pv b x) es; tok "}"
+  | PGlobal (m, n) -> tok ("g:" ^ hex_of_blist m ^ ":" ^ hex_of_blist n)
+  | PCall (f, args) -> tok "C("; dump_pv b f; tok "t("; List.iter (dump_pv b) args; tok ")"; tok ")"
+  | PPers p -> tok "R("; dump_pv b p; tok ")"
+let show_pv (v : pv) : string = let b = Buffer.create 64 in dump_pv b v; String.trim (Buffer.contents b)
+let run_pyload (proto : string) (su : string) (toks : string list) : string =
+  let (v, _) = parse_rval toks in
+  let cfg = { e_proto = z_of_dec proto; e_strict = (su = "1"); e_isprint = is_print_hi; e_fmtg = fmt_g } in
+  match pyval_of cfg v with
+  | None -> "NA"
+  | Some x ->
+    let loaded = (match pyload (program cfg v) with Some y -> show_pv y | None -> "FAIL") in
+    let doc = show_pv x in
+    if loaded = doc then "ok " ^ doc else "THEOREM-MISMATCH documented=" ^ doc ^ " loaded=" ^ loaded
+
 let parse_one (toks : string list) : val0 * string list =
   parse_val toks
 
@@ -541,6 +571,7 @@ let handle (line : string) : string =
   | "enc" :: proto :: su :: failat :: rest -> run_enc proto su failat rest
   | "norm" :: proto :: su :: rest -> run_norm proto su rest
   | "prog" :: proto :: su :: rest -> run_prog proto su rest
+  | "pyload" :: proto :: su :: rest -> run_pyload proto su rest
   | "reenc" :: proto :: pd :: su :: rest -> run_reenc proto pd su (match rest with [h] -> h | _ -> "")
   | "dict" :: rest -> run_dict rest
   | "lookup" :: n :: rest -> run_lookup n rest
